@@ -12,6 +12,8 @@ PENDING = "check under construction in this session (claimed once its rules run 
 CLAIMS = {
  "C01": ("necessary structural conditions of panic/abort/memory safety decided on the MIR of the current tree: guarded input-driven recursion (call-graph SCCs with depth-guard dominance), confinement and padding of the over-reading reader, parse may not end in the padding, bounds comparison in the checked reader, clamped error index, unreachable todo!() bodies, capacity-guarded node buffer, remaining-length check before fixed-width vector loads. Absence of all arithmetic/bounds panics on arbitrary inputs is NOT decided",
          "trusts rustc's MIR and callee resolution; callback model for serde visitors; unbounded recursion of the DOM parser and validating skipper is a listed known finding (F1a/F1b)"),
+ "C05": ("structural necessary conditions of well-formed output decided on the current tree: the three escape tables equal RFC 8259 §7 for all 256 bytes and decode back with the crate's own reader tables (exhaustive table oracle); the reserved window is the affine form the escaper asserts and covers its worst case; no writer/serializer Result is dropped or swallowed and no short write count is ignored (error-discipline dataflow over every serializer/formatter/writer body); float writers reached only on finite classes; forwarding WriteExt impls keep one byte order; quotes only under need_quote. Full well-formedness of output for arbitrary Serialize impls is NOT decided",
+         "trusts rustc's const evaluator for table bytes and MIR for bodies; RFC 8259 escape set encoded in the rule file"),
  "C18": ("static protocol obligations of the publish-once caches decided on the MIR of the current tree (weak-CAS discipline, hand-over type agreement, loser cleanup and returned pointer, owner clone/drop pairing, memory orderings); each is a necessary condition of C18; behaviour under interleavings is NOT decided",
          "trusts rustc's MIR and callee resolution, and the memory model's meaning of the ordering constants"),
 }
